@@ -17,10 +17,10 @@ RULE = (
     "process context (real SharedMemory, arguments pickled as spawn would): for item lists of n <= 4 items and k <= 3 workers (quick) / n <= 6, "
     "k <= 4 (thorough) every (assignment of items to workers, per-worker order); all 15 combinations of cms (linear/log8/log16) / hh / hll "
     "arguments; items given as list, tuple and generator; n_workers 5..9 with schedules that load single workers (first/last/odd: the carried "
-    "sketch of pairwise merging) plus Hypothesis-drawn (items, n_workers 1..9, schedule, combination) cases. Items are dicts describing lists of keys, or plain values incl. falsy ones (0, '', b'', [], ()) (possibly "
+    "sketch of pairwise merging) plus Hypothesis-drawn (items, n_workers 1..9, schedule, combination) cases. Items are dicts describing lists of keys, or plain values incl. falsy ones (0, '', b'', [], ()), numpy arrays and objects that compare equal to everything (possibly "
     "empty, sharing keys, NUL/long keys), updated by list, dict-with-multiplicities or ngram calls; callbacks return generated record counts (also "
     "through a **kwargs-dependent callback). Oracle per run: every item placed on the queue and delivered exactly once; returned sketches identified by class (an undocumented tuple order is only counted); HyperLogLog registers == sequential sketch; n_added of cms/hh == total multiplicity; n_records == sum of callback "
-    "returns; linear cms within the C01 bounds, log cms above the C06 lower bound, hh within C03/C04 bounds w.r.t. the whole stream. Interleaved runs: the same code under a cooperative-thread context (bounded blocking queue, concurrent filler, seeded scheduler with 5 policies) for Hypothesis-drawn cases with up to 40 items and 6 workers. Real spawned "
+    "returns; linear cms within the C01 bounds, log cms above the C06 lower bound, hh within C03/C04 bounds w.r.t. the whole stream. A quarter of the drawn cases run after an earlier parallel_add call of the same process (same arguments, other keys) whose result is still held: the later result must not contain its data and the earlier result must not change. Interleaved runs: the same code under a cooperative-thread context (bounded blocking queue, concurrent filler, seeded scheduler with 5 policies) for Hypothesis-drawn cases with up to 40 items and 6 workers. Real spawned "
     "runs (quick 1, thorough 4; a side file records (pid, item)) validate the context. Non-trivial: >= 2 workers receive items and n_workers >= 3 "
     "or odd. Distinct = distinct (items, n_workers, schedule, combination, items_as)."
 )
@@ -35,6 +35,12 @@ def mk_items(spec):
     items = []
     for i, (kidx, kind, ret, mult) in enumerate(spec):
         keys = [KEYPOOL[j % len(KEYPOOL)] for j in kidx]
+        if kind == "nparr":  # items whose == is element-wise (numpy arrays) ...
+            items.append({"special": "nparr", "vals": [j * 7 + ret for j in kidx]})
+            continue
+        if kind == "any":  # ... or that compare equal to everything
+            items.append({"special": "any", "tag": ret})
+            continue
         if kind in ("int", "str", "bytes", "rawlist", "rawtuple"):
             # items need not be dicts: plain picklable values incl. falsy ones (0, "", b"", [], ())
             v = ret % 4
@@ -45,17 +51,19 @@ def mk_items(spec):
         if (i + ret) % 3 == 0:  # record counts returned as numpy integers (e.g. the result of an array .sum())
             it["ret_type"] = ["i64", "u32", "u8", "i32", "u64"][(i + len(keys)) % 5]
         if kind == "dict":
-            it["mult"] = [1 + (m % 9) for m in (mult + [3] * len(keys))[: len(keys)]]
+            it["mult"] = [MULTS[m % 9] for m in (mult + [2] * len(keys))[: len(keys)]]
         elif kind == "ngram":
             it["ngram"] = 3
         items.append(it)
     return items
 
 
+MULTS = [1, 2, 3, 4, 5, 6, 7, 40, 300]  # beyond the default log8 reserved range, far below every ceiling in combos()
+
 BASE_SPECS = [
     [([2, 4, 2], "list", 3, []), ([3, 6], "dict", 2, [5, 1]), ([7, 0], "ngram", 1, []), ([], "int", 0, [])],
     [([1, 8], "dict", 2, [2, 7]), ([2], "rawlist", 0, []), ([7, 7, 9], "list", 4, []), ([5, 6, 4], "ngram", 2, [])],
-    [([0], "str", 0, []), ([2, 3], "dict", 5, [9, 9]), ([2], "bytes", 0, [])],
+    [([0], "str", 0, []), ([2, 3], "dict", 5, [7, 8]), ([1, 2, 0], "nparr", 0, []), ([2], "bytes", 0, [])],
     [([6, 7], "ngram", 2, []), ([1, 1, 1], "list", 3, []), ([4, 9, 5, 2], "dict", 4, [1, 2, 3, 4]), ([8], "list", 1, []), ([2, 3], "list", 2, []), ([0, 1], "dict", 2, [6, 6])],
 ]
 
@@ -111,7 +119,7 @@ def _special_task(arg):
     cbs = combos()
     for si, sched in enumerate(special_schedules(len(items), k)):
         for ci in ((si * 3) % len(cbs), 7 % len(cbs)):
-            case = {"items": items, "n_workers": k, "schedule": {str(w): v for w, v in sched.items()}, "combo": cbs[ci], "items_as": ["list", "tuple", "generator"][si % 3], "cb": "plain"}
+            case = {"items": items, "n_workers": k, "schedule": {str(w): v for w, v in sched.items()}, "combo": cbs[ci], "items_as": ["list", "tuple", "generator"][si % 3], "cb": "plain", "prior": si % 2 == 1}
             try:
                 run_case(case)
             except Violation as v:
@@ -133,7 +141,7 @@ def _hyp_shard(arg):
         spec = []
         for _ in range(n_items):
             kidx = draw(st.lists(st.integers(0, 9), max_size=4))
-            spec.append((kidx, draw(st.sampled_from(["list", "dict", "ngram", "list", "dict", "int", "str", "bytes", "rawlist", "rawtuple"])), draw(st.integers(0, 5)), draw(st.lists(st.integers(0, 8), max_size=4))))
+            spec.append((kidx, draw(st.sampled_from(["list", "dict", "ngram", "list", "dict", "int", "str", "bytes", "rawlist", "rawtuple", "nparr", "any"])), draw(st.integers(0, 5)), draw(st.lists(st.integers(0, 8), max_size=4))))
         k = draw(st.integers(1, 9))
         assign = [draw(st.integers(0, k - 1)) for _ in range(n_items)]
         order = draw(st.permutations(list(range(n_items)))) if n_items else []
@@ -141,13 +149,13 @@ def _hyp_shard(arg):
         for i in order:
             sched.setdefault(str(assign[i]), []).append(i)
         return {"items": mk_items(spec), "n_workers": k, "schedule": sched, "combo": draw(st.sampled_from(cbs)), "items_as": draw(st.sampled_from(["list", "list", "tuple", "generator"])),
-                "cb": draw(st.sampled_from(["plain", "kw"]))}
+                "cb": draw(st.sampled_from(["plain", "kw"])), "prior": draw(st.sampled_from([False, False, False, True]))}
 
     @given(case=cases())
     def test(case):
         holder["case"] = case
         run_case(case)
-        rec.case(case, nontrivial(case), [f"workers={case['n_workers']}", "hypothesis_cases", f"items_as={case['items_as']}"])
+        rec.case(case, nontrivial(case), [f"workers={case['n_workers']}", "hypothesis_cases", f"items_as={case['items_as']}"] + (["after_an_earlier_call_whose_result_is_held"] if case["prior"] else []))
 
     common.run_given(test, common.derive_seed(seed, "C08", shard), n, holder, rec)
     return rec
@@ -170,7 +178,7 @@ def _coop_shard(arg):
         spec = []
         for _ in range(n_items):
             kidx = draw(st.lists(st.integers(0, 9), max_size=3))
-            spec.append((kidx, draw(st.sampled_from(["list", "dict", "ngram", "list", "int", "str", "rawlist"])), draw(st.integers(0, 5)), draw(st.lists(st.integers(0, 8), max_size=3))))
+            spec.append((kidx, draw(st.sampled_from(["list", "dict", "ngram", "list", "int", "str", "rawlist", "nparr", "any"])), draw(st.integers(0, 5)), draw(st.lists(st.integers(0, 8), max_size=3))))
         return {"items": mk_items(spec), "n_workers": draw(st.integers(1, 6)), "schedule": {}, "combo": draw(st.sampled_from(cbs)), "items_as": draw(st.sampled_from(["list", "list", "tuple", "generator"])),
                 "cb": draw(st.sampled_from(["plain", "kw"])), "ctx": "coop", "sched_seed": draw(st.integers(0, 2**32 - 1)), "policy": draw(st.sampled_from(POLICIES))}
 
